@@ -1833,8 +1833,17 @@ theorem doMove_bad {s : St} {ctx ob : Nat} {a : Name} (h : (doMove s ctx ob a).1
   | ok r => simp only [hr, Bool.or_eq_false_iff] at h; exact h.1
   | error e => simp [hr] at h
 
-theorem hre_bad {s : St} {ctx : Nat} {ex : List Name} {o a : Name} {t : Nat}
-    (h : (handleReExport s ctx ex o a t).1.bad = false) : s.bad = false := by
+theorem pbm_bad {pm : St → Nat → St} (hpm : Sticky pm) {s : St} {ob : Nat}
+    (h : (processBeforeMove pm s ob).bad = false) : s.bad = false := by
+  unfold processBeforeMove at h
+  split at h
+  · split at h
+    · exact gpm_bad hpm h
+    · simp at h
+  · exact h
+
+theorem hre_bad {pm : St → Nat → St} (hpm : Sticky pm) {s : St} {ctx : Nat} {ex : List Name} {o a : Name} {t : Nat}
+    (h : (handleReExport pm s ctx ex o a t).1.bad = false) : s.bad = false := by
   unfold handleReExport at h
   by_cases h1 : (!ex.contains a) = true
   · simp only [h1, if_true] at h; exact h
@@ -1846,20 +1855,23 @@ theorem hre_bad {s : St} {ctx : Nat} {ex : List Name} {o a : Name} {t : Nat}
       by_cases h2 : moveBlocked s ctx ob = true
       · simp only [h2, if_true] at h; exact h
       · simp only [h2] at h
-        by_cases h3 : listedIn s t o = true
-        · simp only [h3, if_true] at h; exact h
-        · simp only [h3] at h; exact doMove_bad h
+        by_cases h4 : notModuleLevel s ob = true
+        · simp only [h4, if_true] at h; exact h
+        · simp only [h4] at h
+          by_cases h3 : listedIn s t o = true
+          · simp only [h3, if_true] at h; exact h
+          · simp only [h3] at h; exact pbm_bad hpm (doMove_bad h)
 
-theorem starOne_bad {ctx t : Nat} {ex : List Name} {s : St} {x : Name}
-    (h : (starOne ctx t ex s x).bad = false) : s.bad = false := by
+theorem starOne_bad {pm : St → Nat → St} (hpm : Sticky pm) {ctx t : Nat} {ex : List Name} {s : St} {x : Name}
+    (h : (starOne pm ctx t ex s x).bad = false) : s.bad = false := by
   unfold starOne at h
   simp only at h
-  by_cases h1 : (handleReExport s ctx ex x x t).2 = true
-  · simp only [h1, if_true] at h; exact hre_bad h
+  by_cases h1 : (handleReExport pm s ctx ex x x t).2 = true
+  · simp only [h1, if_true] at h; exact hre_bad hpm h
   · simp only [h1] at h
-    cases he : Names.expandName (envOf (handleReExport s ctx ex x x t).1) t [x] with
+    cases he : Names.expandName (envOf (handleReExport pm s ctx ex x x t).1) t [x] with
     | none => simp [he] at h
-    | some p => simp only [he, setAlias_bad] at h; exact hre_bad h
+    | some p => simp only [he, setAlias_bad] at h; exact hre_bad hpm h
 
 theorem foldl_bad {α : Type} {f : St → α → St} (hf : ∀ s x, (f s x).bad = false → s.bad = false) :
     ∀ (l : List α) (s : St), (l.foldl f s).bad = false → s.bad = false
@@ -1887,9 +1899,9 @@ theorem visitImportFrom_bad {pm : St → Nat → St} (hpm : Sticky pm) {mod ctx 
       generalize hs2 : (if isPkgObj (getProcessedModule pm s T).1.reg t = true then
           (getProcessedModule pm (getProcessedModule pm s T).1 (T ++ [n])).1 else (getProcessedModule pm s T).1) = s2 at h
       have h2 : s2.bad = false := by
-        by_cases hh : (handleReExport s2 ctx (currentExports (getProcessedModule pm s T).1 ctx) n (a.getD n) t).2 = true
-        · simp only [hh, if_true] at h; exact hre_bad h
-        · simp only [hh, Bool.false_eq_true, if_false] at h; rw [setAlias_bad] at h; exact hre_bad h
+        by_cases hh : (handleReExport pm s2 ctx (currentExports (getProcessedModule pm s T).1 ctx) n (a.getD n) t).2 = true
+        · simp only [hh, if_true] at h; exact hre_bad hpm h
+        · simp only [hh, Bool.false_eq_true, if_false] at h; rw [setAlias_bad] at h; exact hre_bad hpm h
       rw [← hs2] at h2
       split at h2
       · exact gpm_bad hpm (gpm_bad hpm h2)
@@ -1906,7 +1918,7 @@ theorem visitImportStar_bad {pm : St → Nat → St} (hpm : Sticky pm) {mod ctx 
     | none => simp only [ht] at h; exact gpm_bad hpm h
     | some t =>
       simp only [ht] at h
-      exact gpm_bad hpm (foldl_bad (fun s x => starOne_bad) _ _ h)
+      exact gpm_bad hpm (foldl_bad (fun s x => starOne_bad hpm) _ _ h)
 
 theorem visitAssign_bad {ctx : Nat} {n : Name} {s : St} (h : (visitAssign ctx n s).bad = false) : s.bad = false := by
   unfold visitAssign at h
@@ -2120,10 +2132,19 @@ theorem visitImport_ok {proj : Project} {rank : List Nat} (wf : WFacts proj rank
       intro y hy; subst hy; exact setAlias_entry ho
 
 theorem hre_noop {s : St} {ctx : Nat} {ex : List Name} {o a : Name} {t : Nat} (h : ex.contains a = false) :
-    handleReExport s ctx ex o a t = (s, false) := by
+    handleReExport pm s ctx ex o a t = (s, false) := by
   unfold handleReExport
   have : (!ex.contains a) = true := by rw [h]; rfl
   simp only [this, if_true]
+
+theorem starOne_bad_nil {pm : St → Nat → St} {ctx t : Nat} {s : St} {x : Name}
+    (h : (starOne pm ctx t [] s x).bad = false) : s.bad = false := by
+  unfold starOne at h
+  rw [hre_noop (by simp)] at h
+  simp only [Bool.false_eq_true, if_false] at h
+  cases he : Names.expandName (envOf s) t [x] with
+  | none => simp [he] at h
+  | some p => simp only [he, setAlias_bad] at h; exact h
 
 theorem isPkgObj_mod {proj : Project} {s : St} (hI : PdInv proj s) {m : Nat} (hm : m < proj.length) :
     isPkgObj s.reg m = isPkg proj m := by
@@ -2208,9 +2229,9 @@ theorem visitImportFrom_ok {proj : Project} {rank : List Nat} (wf : WFacts proj 
     generalize hs2 : (if isPkgObj (getProcessedModule pm s T).1.reg t = true then
         (getProcessedModule pm (getProcessedModule pm s T).1 (T ++ [n])).1 else (getProcessedModule pm s T).1) = s2 at hb ⊢
     have hb2 : s2.bad = false := by
-      by_cases hh : (handleReExport s2 ctx (currentExports (getProcessedModule pm s T).1 ctx) n (a.getD n) t).2 = true
-      · simp only [hh, if_true] at hb; exact hre_bad hb
-      · simp only [hh, Bool.false_eq_true, if_false] at hb; rw [setAlias_bad] at hb; exact hre_bad hb
+      by_cases hh : (handleReExport pm s2 ctx (currentExports (getProcessedModule pm s T).1 ctx) n (a.getD n) t).2 = true
+      · simp only [hh, if_true] at hb; exact hre_bad hpm.1 hb
+      · simp only [hh, Bool.false_eq_true, if_false] at hb; rw [setAlias_bad] at hb; exact hre_bad hpm.1 hb
     have hb1 : (getProcessedModule pm s T).1.bad = false := by
       rw [← hs2] at hb2
       split at hb2
@@ -2283,8 +2304,8 @@ theorem starOne_ok {proj : Project} {rank : List Nat} (wf : WFacts proj rank) {s
     (hst : Stmt.importStar lvl M ∈ full) (hT : pdAbsName proj S.1 lvl M = some T) {t : Nat} (ht : t < proj.length)
     (hu : ∀ t', modIdx proj T = some t' → t = t') {x : Name}
     (hx : starOk proj t x ∧ (x ∈ allNames (bodyOf proj t) ∨ HasEntry s t x))
-    (hb : (starOne ctx t [] s x).bad = false) :
-    PdInv proj (starOne ctx t [] s x) ∧ Ext s (starOne ctx t [] s x) := by
+    (hb : (starOne pm ctx t [] s x).bad = false) :
+    PdInv proj (starOne pm ctx t [] s x) ∧ Ext s (starOne pm ctx t [] s x) := by
   have hS := hc.static hI
   unfold starOne at hb ⊢
   rw [hre_noop (by simp)] at hb ⊢
@@ -2327,14 +2348,14 @@ theorem starFold_ok {proj : Project} {rank : List Nat} (wf : WFacts proj rank)
     (hu : ∀ t', modIdx proj T = some t' → t = t') :
     ∀ (l : List Name) (s : St), PdInv proj s → Ctx proj s mod ctx S full →
       (∀ x ∈ l, starOk proj t x ∧ (x ∈ allNames (bodyOf proj t) ∨ HasEntry s t x)) →
-      (l.foldl (starOne ctx t []) s).bad = false →
-      PdInv proj (l.foldl (starOne ctx t []) s) ∧ Ext s (l.foldl (starOne ctx t []) s)
+      (l.foldl (starOne pm ctx t []) s).bad = false →
+      PdInv proj (l.foldl (starOne pm ctx t []) s) ∧ Ext s (l.foldl (starOne pm ctx t []) s)
   | [], s, hI, _, _, _ => ⟨hI, Ext.refl s⟩
   | x :: xs, s, hI, hc, hx, hb => by
     simp only [List.foldl_cons] at hb ⊢
-    have hb1 := foldl_bad (fun s x => starOne_bad) xs _ hb
+    have hb1 := foldl_bad (fun s x => starOne_bad_nil) xs _ hb
     obtain ⟨hI1, he1⟩ := starOne_ok wf hI hc hst hT ht hu (hx x (List.mem_cons_self ..)) hb1
-    have hx' : ∀ y ∈ xs, starOk proj t y ∧ (y ∈ allNames (bodyOf proj t) ∨ HasEntry (starOne ctx t [] s x) t y) := by
+    have hx' : ∀ y ∈ xs, starOk proj t y ∧ (y ∈ allNames (bodyOf proj t) ∨ HasEntry (starOne pm ctx t [] s x) t y) := by
       intro y hy
       obtain ⟨h1, h2⟩ := hx y (List.mem_cons_of_mem _ hy)
       exact ⟨h1, h2.imp id (fun h => h.ext he1)⟩
@@ -2358,7 +2379,7 @@ theorem visitImportStar_ok {proj : Project} {rank : List Nat} (wf : WFacts proj 
     exact ⟨hI1, he1⟩
   | some t =>
     simp only [ht] at hb ⊢
-    have hb1 := foldl_bad (fun s x => starOne_bad) _ _ hb
+    have hb1 := foldl_bad (fun s x => starOne_bad hpm.1) _ _ hb
     obtain ⟨hI1, he1, hsp⟩ := gpm_ok hpm hI hb1
     obtain ⟨htl, hu⟩ := hsp t ht
     -- nothing is exported: a module with star imports has no `__all__`
@@ -2569,13 +2590,13 @@ theorem enterClass_ok {proj : Project} {rank : List Nat} (wf : WFacts proj rank)
       | none => simp [hxe] at hx
       | some p =>
         simp only [hxe] at hx
-        cases hof : Names.objFor (envOf s) p with
-        | none => simp [hof] at hx
-        | some o =>
+        cases hof : Names.findObject (envOf s) p with
+        | obj o =>
           simp only [hof] at hx
           by_cases hcl : isClassObj s.reg o = true
           · simp only [hcl, if_true, Option.some.injEq] at hx; subst hx; exact hcl
           · simp [hcl] at hx
+        | _ => simp [hof] at hx
   have hcb2 : CBase { addObj s .cls n ctx with cinfo := ci } := by
     intro e hm b hbm
     rcases hci e hm with hold | hnewc
